@@ -125,6 +125,9 @@ def ncells(shape):
 SPLIT_MASKS = False      # set per job: decide every mask bit up front (keeps the arithmetic free of mask ites)
 
 
+LAYOUT = {'order': 'C'}       # memory layout of the symbolic input arrays of the current job ('F': column-major)
+
+
 def sym_array(ctx, name, shape, kind='f', rep='ma', fuzzy=False):
     n = ncells(shape)
     vs = [ctx.real('%s.d%d' % (name, i), integer=(kind in ('i', 'u'))) for i in range(n)]
@@ -133,7 +136,8 @@ def sym_array(ctx, name, shape, kind='f', rep='ma', fuzzy=False):
         # wrap-around BELOW zero has to be modelled (sums / products of a few cells stay far from 2^64)
         for v in vs:
             ctx.assume(z3.And(v >= 0, v <= 2 ** 20))
-    d = symnp.ndarray._new(vs, tuple(shape), kind)
+    mk_nd = symnp.ndarray._new_f if LAYOUT['order'] == 'F' else symnp.ndarray._new
+    d = mk_nd(vs, tuple(shape), kind)
     ms = None
     if rep == 'ma':
         ms = [ctx.bool('%s.m%d' % (name, i)) for i in range(n)]
@@ -146,7 +150,7 @@ def sym_array(ctx, name, shape, kind='f', rep='ma', fuzzy=False):
     if rep == 'nd':
         arr = d
     else:
-        arr = symnp.MaskedArray(d, symnp.ndarray._new(ms, tuple(shape), 'b') if ms else None)
+        arr = symnp.MaskedArray(d, mk_nd(ms, tuple(shape), 'b') if ms else None)
     return Holder(name, arr, fuzzy)
 
 
@@ -168,6 +172,11 @@ def arr_cells(a):
     if isinstance(a, symnp.MaskedArray):
         return a.data.cells(), (a.maskcells() if a._mask is not None else None), ('ma' if a._mask is not None else 'nomask')
     return a.cells(), None, 'nd'
+
+
+def _layout_of(a):
+    f = a.idx.flags
+    return 'F' if (a.idx.ndim >= 2 and f['F_CONTIGUOUS'] and not f['C_CONTIGUOUS']) else 'C'
 
 
 def summary_of(a):
@@ -414,7 +423,7 @@ def concrete_arr(m, cells, holder, run_results, chain):
             if holder.arr is rr:
                 return {'t': 'ref', 'run': j, 'fuzzy': holder.fuzzy}
     kind = summ['kind']
-    return {'t': 'arr', 'rep': rep, 'kind': kind, 'shape': summ['shape'], 'fuzzy': holder.fuzzy,
+    return {'t': 'arr', 'rep': rep, 'kind': kind, 'shape': summ['shape'], 'fuzzy': holder.fuzzy, 'layout': _layout_of(holder.arr) if isinstance(holder.arr, symnp.ndarray) else 'C',
             'data': [_evnum(m, t, kind) for t in d],
             'mask': [bool(symx.model_value(m, t)) for t in mk] if mk is not None else None}
 
@@ -843,6 +852,9 @@ def run_scenario_job(scenario, cfg, prop, seed=0, max_paths=6000, validate=True,
     import time
     global SPLIT_MASKS
     SPLIT_MASKS = bool(cfg.get('split_masks'))
+    LAYOUT['order'] = cfg.get('layout', 'C')
+    symx.PINS.clear()
+    symx.PINS.update(cfg.get('pin') or {})
     symnp.ROUNDING['on'] = bool(cfg.get('rounding'))
     if cfg.get('rounding'):
         validate = False        # the error terms have no counterpart to compare on the real code; reports are replayed anyway
